@@ -3,10 +3,12 @@
 package rpc
 
 import (
+	"errors"
 	"strconv"
 	"strings"
 	"sync"
 	"testing"
+	"time"
 
 	"golang.org/x/net/context"
 )
@@ -14,12 +16,20 @@ import (
 type vListStorage struct {
 	mu   sync.Mutex
 	puts []int64
+	fail bool          // stores the record, then reports an error (a storage whose acknowledgement got lost)
+	slow time.Duration // every Put takes this long
 }
 
 func (s *vListStorage) Put(_ context.Context, _ string, r InstrumentationRecord) error {
+	if s.slow > 0 {
+		time.Sleep(s.slow)
+	}
 	s.mu.Lock()
 	s.puts = append(s.puts, r.Size)
 	s.mu.Unlock()
+	if s.fail {
+		return errors.New("verif: storage error after storing")
+	}
 	return nil
 }
 
@@ -39,9 +49,46 @@ func TestVerifC20(t *testing.T) {
 		case "inst":
 			vGuard(out, c.kind, c.id, func() {
 				st := &vListStorage{}
+				switch c.get("storage") {
+				case "errs":
+					st.fail = true
+				case "slow":
+					st.slow = 3 * time.Millisecond
+				}
 				in := NewNetworkInstrumenter(st, "Call x")
 				var refused []string
-				if ops := c.get("ops"); ops != "-" && ops != "" {
+				if ops := c.get("ops"); c.get("conc") == "1" && ops != "-" && ops != "" {
+					// every finishing operation on a goroutine of its own, all at once
+					var wg sync.WaitGroup
+					var rmu sync.Mutex
+					for _, o := range strings.Split(ops, ",") {
+						o := o
+						if o[0] == 'i' {
+							n, _ := strconv.ParseInt(o[1:], 10, 64)
+							in.IncrementSize(n)
+							continue
+						}
+						wg.Add(1)
+						go func() {
+							defer wg.Done()
+							var err error
+							if o[0] == 'f' {
+								err = in.Finish(context.Background())
+							} else {
+								n, _ := strconv.ParseInt(o[1:], 10, 64)
+								err = in.RecordAndFinish(context.Background(), n)
+							}
+							rmu.Lock()
+							if err != nil {
+								refused = append(refused, "1")
+							} else {
+								refused = append(refused, "0")
+							}
+							rmu.Unlock()
+						}()
+					}
+					wg.Wait()
+				} else if ops != "-" && ops != "" {
 					for _, o := range strings.Split(ops, ",") {
 						switch o[0] {
 						case 'i':
